@@ -48,3 +48,28 @@ Example C10_ex :
   = ([OEmpty; OEmpty; OMsg; OMsg; ODisconnected],
      [CSetfl true; CRecvmsg true; CSetfl false; CPoll 0 false; CPoll 50 true; CRecvmsg false; CRecvmsg false; CSetfl true; CRecvmsg true; CSetfl false], false).
 Proof. vm_compute. reflexivity. Qed.
+
+(* ---- unfinished messages of a crashed sender at the head of the queue: the loop of recv() discards them and tries again in the
+   SAME mode (Timed.recv_all) ---- *)
+Theorem C10_torn_messages_invisible : forall m torn q d,
+  fst (fst (recv_all m torn q d false)) = fst (fst (recv_first m q d false)) /\ snd (recv_all m torn q d false) = false.
+Proof. exact torn_messages_invisible. Qed.
+Print Assumptions C10_torn_messages_invisible.
+
+Theorem C10_torn_try_recv : forall torn q d,
+  fst (fst (recv_all MNonblocking torn q d false)) = match q with QMsg => OMsg | QIdle => OEmpty | QDead => ODisconnected end.
+Proof. exact torn_try_recv. Qed.
+Print Assumptions C10_torn_try_recv.
+
+(* a timed receive behind any number of torn messages reports 'empty' only after a poll with its full timeout found nothing *)
+Theorem C10_torn_timeout_full_wait : forall us torn q d o cs f',
+  recv_all (MTimeout us) torn q d false = (o, cs, f') -> o = OEmpty ->
+  exists pre, cs = pre ++ [CPoll (poll_arg us) false] /\ q = QIdle /\ (d = None \/ d = Some QIdle).
+Proof. exact torn_timeout_full_wait. Qed.
+Print Assumptions C10_torn_timeout_full_wait.
+
+Theorem C10_torn_calls : forall m torn q d,
+  snd (fst (recv_all m torn q d false)) =
+  concat (repeat (snd (fst (recv_first m QMsg None false))) torn) ++ snd (fst (recv_first m q d false)).
+Proof. exact torn_calls. Qed.
+Print Assumptions C10_torn_calls.
